@@ -108,6 +108,23 @@ func streamCore(seed uint64, idx int) caseT {
 func streamProj(seed uint64, idx int) caseT {
 	g := genFor(seed, "proj", idx)
 	g.noFn = !g.r.chance(35)
+	if idx%25 == 3 {
+		// the SAME array as the first (or only) member of several flattens / projections in one expression:
+		// a result that aliases it, or that was appended to in place, shows up in the sibling or in the pipe
+		mk := func(n, base int) []interface{} {
+			out := []interface{}{}
+			for i := 0; i < n; i++ {
+				out = append(out, float64(base+i))
+			}
+			return out
+		}
+		d := map[string]interface{}{"a": mk(1+g.r.intn(7), 1), "b": mk(1+g.r.intn(3), 20), "c": mk(1+g.r.intn(3), 30),
+			"n": []interface{}{mk(1+g.r.intn(7), 1), mk(1+g.r.intn(2), 40), mk(g.r.intn(3), 50)}}
+		e := g.r.pick([]string{"[[a, b][], [a, c][]]", "[[a, b][], [a, c][], a]", "[n[], [n[0], c][], n[0]]", "[[a, b][], a, [a, c][]] | [@[0], @[2], @[1]]",
+			"[a[*], [a, b][], a[*]]", "[[a, b][] , [a, c][]] | [0]", "[[a, b][], [a, c][]] | [1]", "[n[] | [0], n[], [n[0], b][]]", "[[a, b, c][], [a, c, b][], [a][]]",
+			"[a[:], [a[:], b][], [a[:], c][]]", "[[a, b][].abs(@), [a, c][]]", "[[a, b][] | length(@), [a, c][] | length(@), length(a)]", "[sort(a), [sort(a), b][], [a, c][]]"})
+		return caseT{lines: []string{"S " + hexField(e) + " " + canonOf(d)}}
+	}
 	doc := topDoc(g)
 	var t toks
 	for try := 0; try < 6; try++ {
@@ -410,6 +427,16 @@ func streamHostile(seed uint64, idx int) caseT {
 		}
 		e := string(bs)
 		return caseT{lines: []string{"C " + hexField(e), "S " + hexField(e) + " " + canonOf(doc)}}
+	case 7: // tokens whose decoded value is LONGER or shorter than their spelling (invalid UTF-8 inside quoted identifiers
+		// decodes to 3 bytes each, escapes decode to fewer), placed where a syntax error is reported at or after them
+		n := 1 + g.r.intn(8)
+		body := ""
+		for i := 0; i < n; i++ {
+			body += g.r.pick([]string{"\xff", "\xfe", "\xc0", "\x80", "\xf5", "\xed\xa0\x80", "\\u00e9", "\\n", "\\\\", "é", "\xe4\xb8", "a"})
+		}
+		q := "\"" + body + "\""
+		e := strings.Replace(g.r.pick([]string{"a %s", "%s(@)", "foo[%s]", "%s %s", "[%s", "(%s", "{a: %s", "%s.", "a.%s b", "%s[", "%s ||", "f(%s", "a[?%s", "%s:", "{%s: a", "{%s a}", "%s\"", "`%s", "'x' %s", "[%s,"}), "%s", q, -1)
+		return caseT{lines: []string{"C " + hexField(e), "S " + hexField(e) + " " + canonOf(doc)}}
 	case 6: // non-ASCII directly after identifier characters and delimiters
 		e := g.r.pick([]string{"a", "ab", "_", "a1", "\"a\"", "'a'", "`1`", "a.", "a[", "@"}) + g.r.pick([]string{"\u0080", "é", "\x80", "\xff", " ", "\U0001F600", "\x7f", "Ā"}) + g.r.pick([]string{"", "b", ".c", "]"})
 		return caseT{lines: []string{"C " + hexField(e), "S " + hexField(e) + " " + canonOf(doc)}}
@@ -515,7 +542,11 @@ func streamTruthNest(seed uint64, idx int) caseT {
 			if g.r.chance(40) {
 				return g.r.pick([]string{"a", "b", "c"})
 			}
-			return literalTok(universe[g.r.intn(len(universe))])
+			u := universe[g.r.intn(len(universe))]
+			if str, isStr := u.(string); isStr && rawOK(str) && g.r.chance(60) {
+				return rawTok(str) // the same string as a raw string literal ('' is false-like)
+			}
+			return literalTok(u)
 		}
 		switch g.r.intn(6) {
 		case 0:
@@ -576,6 +607,22 @@ func streamSlice(seed uint64, idx int) caseT {
 		}
 		d := canonOf(map[string]interface{}{"a": arr})
 		lines = append(lines, "S "+hexField("a"+e1+" | "+e2)+" "+d, "S "+hexField("[a"+e1+", a"+e2+", a"+e1+"]")+" "+d)
+	}
+	if idx%13 == 0 { // a slice inside the right-hand side of a slice projection, and slices of slices
+		rows := make([]interface{}, n)
+		for i := range rows {
+			row := make([]interface{}, n+1)
+			for j := range row {
+				row[j] = float64(10*i + j)
+			}
+			rows[i] = map[string]interface{}{"m": row, "i": float64(i)}
+		}
+		e1, e2 := sliceExpr(a, b, c), sliceExpr(c, "_", a)
+		if idx%26 == 0 {
+			e2 = sliceExpr("_", b, "_")
+		}
+		d := canonOf(map[string]interface{}{"rows": rows})
+		lines = append(lines, "S "+hexField("rows"+e1+".m"+e2)+" "+d, "S "+hexField("rows"+e1+".m"+e2+e1)+" "+d, "S "+hexField("rows[*].m"+e1+" | @"+e2+e1)+" "+d)
 	}
 	if idx%97 == 0 { // the same slice on non-arrays and behind a projection
 		e := sliceExpr(a, b, c)
